@@ -24,6 +24,7 @@ type SolveResult struct {
 	Model   string
 	Size    int
 	Tried   []string
+	Candidate string // model of the quantifier-free weakening (candidate counterexample)
 }
 
 type solverSpec struct {
@@ -93,7 +94,7 @@ func runSolver(s solverSpec, file string, timeoutS int) (string, string, float64
 	case "timeout":
 		return "unknown", text, secs
 	}
-	if ctx.Err() != nil {
+	if ctx.Err() != nil || strings.Contains(text, "interrupted by timeout") {
 		return "unknown", "timeout\n" + text, secs
 	}
 	return "error", text, secs
@@ -150,6 +151,22 @@ func (v *Verifier) solveOne(o *Obligation, dir string, timeoutS int) *SolveResul
 	}
 	res.Status = "unknown"
 	res.Output = lastOut
+	if !o.ExpSat {
+		// candidate counterexample: the same query without quantified facts (weaker assumptions, so a model is only a
+		// candidate and must be confirmed by replay on the real code)
+		o2 := *o
+		o2.ExpSat = true
+		o2.Goal = "(not " + o.Goal + ")"
+		cfile := filepath.Join(dir, mangle(o.Name)+".cand.smt2")
+		if os.WriteFile(cfile, []byte(v.smtText(&o2, true)), 0o644) == nil {
+			st, out, secs := runSolver(solvers[0], cfile, timeoutS)
+			res.Secs += secs
+			res.Tried = append(res.Tried, fmt.Sprintf("candidate-model:%s:%.2fs", st, secs))
+			if st == "sat" {
+				res.Candidate = out
+			}
+		}
+	}
 	return res
 }
 
